@@ -86,3 +86,14 @@ Theorem C08_hash_arguments_in_range : forall h g, - LeafProofs.HR < h < LeafProo
   LeafProofs.psh_pre (3 * h) /\ LeafProofs.psh_pre (h + g) /\ LeafProofs.psh_pre (h - g).
 Proof. exact LeafProofs.project_args_in_range. Qed.
 Print Assumptions C08_hash_arguments_in_range.
+
+(* a bound on the number of reductions: SIZE_MAX is reported exactly when the bound is exceeded *)
+Theorem C08_reduction_bound_reported_exactly : forall rec tern api maxred wv wr wd wviol ws m n M rc v nred reds reduced viol sepa rest,
+  sp_input rec = Some ((tern, api, maxred, (wv, wr, wd, wviol, ws), (m, n, M), rc, v, nred, reds, reduced, viol, sepa), rest) ->
+  sp_domain tern M = true -> 0 <= maxred -> nred <> -2 ->
+  judge_sp rec = 0 ->
+  rc = 0 /\
+  (maxred < Z.of_nat (total_reds tern m n M) -> nred = -1) /\
+  (Z.of_nat (total_reds tern m n M) <= maxred -> nred = Z.of_nat (total_reds tern m n M)).
+Proof. exact judge_sp_limited_sound. Qed.
+Print Assumptions C08_reduction_bound_reported_exactly.
